@@ -30,11 +30,13 @@ Ambiguous in the text (both readings accepted):
   * every X-Forwarded-For entry is trusted (Tornado: the leftmost entry).
 """
 
+import functools
 import socket
 
 _VALID = ("http", "https")
 
 
+@functools.lru_cache(maxsize=4096)
 def valid_ip(s):
     if not s or "\x00" in s:
         return False
@@ -47,6 +49,7 @@ def valid_ip(s):
         return False
 
 
+@functools.lru_cache(maxsize=4096)
 def strict_ip(s):
     """Canonical textual forms only (inet_pton); used for a probe, not a verdict."""
     for fam in (socket.AF_INET, socket.AF_INET6):
@@ -84,7 +87,7 @@ def expected(sock_ip, conn_proto, lines, trusted):
         untrusted = [e for e in reversed(entries) if e not in trusted]
         if untrusted:
             cand = untrusted[0]
-            if untrusted[0] is not entries[-1] or entries[-1] in trusted:
+            if entries[-1] in trusted:
                 tags.add("xff_trusted_skipped")
         else:
             tags.add("xff_all_trusted")
